@@ -8,6 +8,7 @@ CONSTANTS
   Faults = {"dup", "drop"}
   MaxFaults = 1
   CC0 = 14
+  EarlyPMT = FALSE
   StartLike = TRUE
   Dev = {}
 ACTION_CONSTRAINT ExportEdge
